@@ -8,7 +8,7 @@
   the solution sequence of the goal as an input, so every theorem is "for all solution sequences".
   The tie to the source is the correspondence stream `c11.collect`.
 -/
-import PrologVerif.Proofs.Collect
+import PrologVerif.Proofs.CollectWitness
 namespace PrologVerif.C11
 open PrologVerif PrologVerif.Collect PrologVerif.CollectSpec
 
@@ -94,6 +94,37 @@ theorem C11_findall_errors (instances : Term) (sols : List Term) (gerr : Option 
   · intro e h; simp [findAll, h]
   · intro e h1 h2; simp [findAll, h1, h2]
 
+/-- **C11_findall** (no binding of goal variables is left behind): every variable bound in the answer
+    environment is a variable of `Instances` or one of the fresh variables of the copies; in particular
+    a variable of the goal (older than `next`) that does not occur in `Instances` is unbound after the
+    call. -/
+theorem C11_findall_bindings (instances : Term) (sols : List Term) (next fuel : Nat) (e : Env) (ok : Bool)
+    (h : unify [] fuel instances (Term.list (copyAll sols next).1) = some (e, ok)) :
+    (∀ p ∈ e, p.1 ∈ vars instances ∨ next ≤ p.1) ∧
+    (∀ v, v < next → v ∉ vars instances → e.lookup v = none) := by
+  have hnew := unify_newIn (fun v => v ∈ vars instances ∨ next ≤ v) fuel [] instances _ e ok h
+    (fun v hv => Or.inl hv)
+    (by
+      intro v hv
+      rw [vars_list] at hv
+      simp only [Term.nilT, vars_atom, List.append_nil, List.mem_flatMap] at hv
+      obtain ⟨c, hc, hv⟩ := hv
+      exact Or.inr ((copyAll_spec sols next).2.2.2.1 c hc v hv).1)
+    (by intro p hp; simp at hp)
+  have h1 : ∀ p ∈ e, p.1 ∈ vars instances ∨ next ≤ p.1 := by
+    intro p hp
+    rcases hnew p hp with h | h
+    · simp at h
+    · exact h.1
+  refine ⟨h1, ?_⟩
+  intro v hv hni
+  cases hl : e.lookup v with
+  | none => rfl
+  | some t =>
+    rcases h1 _ (lookup_mem hl) with h | h
+    · exact absurd h hni
+    · simp only at h; omega
+
 /-! ### bagof / setof: the groups -/
 
 /-- the copies `W+T` that `collectionOf` groups: one per solution, in order, each a variant of the
@@ -153,6 +184,96 @@ theorem C11_bagof_partition_witness : ¬ (∀ s, IsPartition s (groupsBy variant
   have h2 : variant d11_AB d11_CC = false := by decide +kernel
   rw [(variant_iff _ _).mpr hv] at h2
   exact absurd h2 (by simp)
+
+/-- **C11_bagof_partition** (the witness unifications, general form): `F` = the free variables,
+    `tuple args` = the witness copy of the first solution of a group, `rest` = the witness copies of
+    its other solutions.  If the copies contain no free variable, are pairwise variable-disjoint and
+    are variants of the first one, then — with fuel at least the stated amount — every
+    `env.Unify(witness, w)` of the loop succeeds, and in the resulting environment the tuple of the
+    free variables and every witness copy have the same value: the last copy. -/
+theorem C11_witness_unify (F : List Nat) (args : List Term) (rest : List Term) (fuel : Nat)
+    (hF : F.Nodup) (hlen : args.length = F.length)
+    (hfresh : ∀ w ∈ tuple args :: rest, ∀ v ∈ vars w, v ∉ F)
+    (hdisj : (tuple args :: rest).Pairwise (fun a b => ∀ v ∈ vars a, v ∉ vars b))
+    (hvar : ∀ w ∈ rest, Variant (tuple args) w)
+    (hfuel : needT (tuple args) + rest.length + F.length + 4 ≤ fuel) :
+    ∃ e, unifyWitnesses (tuple (F.map .var)) fuel (tuple args :: rest) [] = some e ∧
+      ∀ w ∈ tuple (F.map .var) :: tuple args :: rest,
+        Value e w ((tuple args :: rest).getLast (by simp)) :=
+  witness_unify F args rest fuel hF hlen hfresh hdisj hvar hfuel
+
+/-- **C11_bagof_partition** (free variables = the group's witness): for every goal, template and
+    solution sequence (each solution a substitution), every group `g` that `collectionOf` forms, and
+    fuel at least the stated amount: the witness unifications of the group all succeed, and in the
+    resulting environment the free variables of `Template^Goal` (the witness term) have the value of
+    the group's witness — the witness copy of the group's last solution — and so has the witness copy
+    of every solution of the group (so the template instances of the group, which share variables with
+    their witness copies, are instantiated consistently). -/
+theorem C11_bagof_witnesses (goal template : Term) (σs : List (List (Nat × Term))) (next fuel : Nat)
+    (hnext : ∀ v ∈ freeVariables goal template, v < next)
+    (g : List (Term × Term))
+    (hg : g ∈ groups (copyPairs (solutionPairs goal template σs) (next + 1)).1)
+    (hfuel : ∀ p ∈ g, needT p.1 + g.length + (freeVariables goal template).length + 4 ≤ fuel) :
+    ∃ (e : Env) (hne : g ≠ []),
+      unifyWitnesses (witnessOf goal template) fuel (g.map (·.1)) [] = some e ∧
+      ∀ p ∈ g, Value e (witnessOf goal template) (g.getLast hne).1 ∧ Value e p.1 (g.getLast hne).1 := by
+  have hcop := C11_bagof_copies (solutionPairs goal template σs) (next + 1)
+  simp only at hcop
+  obtain ⟨hlen, hvar, hfr, hdj⟩ := hcop
+  have hpart := C11_bagof_partition (copyPairs (solutionPairs goal template σs) (next + 1)).1
+  have hsub := hpart.order g hg
+  have hne : g ≠ [] := hpart.nonempty g hg
+  -- every copy is a tuple with one component per free variable
+  have hshape : ∀ c ∈ (copyPairs (solutionPairs goal template σs) (next + 1)).1,
+      ∃ args, c.1 = tuple args ∧ args.length = (freeVariables goal template).length := by
+    intro c hc
+    obtain ⟨sp, hsp⟩ := exists_zip_of_mem_right hlen.symm hc
+    have hv := (hvar _ hsp).2.1
+    have hsp' := (List.of_mem_zip hsp).1
+    simp only [solutionPairs, List.mem_map] at hsp'
+    obtain ⟨σ, _, rfl⟩ := hsp'
+    exact shape_of_variant _ σ c.1 hv
+  cases g with
+  | nil => exact absurd rfl hne
+  | cons p0 gs =>
+    obtain ⟨args, hargs, hal⟩ := hshape p0 (hsub.subset (by simp))
+    have hF : (freeVariables goal template).Nodup :=
+      (C11_free_vars goal template).2.imp (fun h => Nat.ne_of_lt h)
+    have hfuel0 := hfuel p0 (by simp)
+    rw [hargs] at hfuel0
+    simp only [List.length_cons] at hfuel0
+    obtain ⟨e, he, hval⟩ := witness_unify (freeVariables goal template) args (gs.map (·.1)) fuel hF hal
+      (by
+        intro w hw v hv hvF
+        rw [← hargs, ← List.map_cons (f := fun p : Term × Term => p.1)] at hw
+        obtain ⟨q, hq, rfl⟩ := List.mem_map.mp hw
+        have := hfr q (hsub.subset hq) v (by simp [hv])
+        have := hnext v hvF
+        omega)
+      (by
+        rw [← hargs, ← List.map_cons (f := fun p : Term × Term => p.1)]
+        refine List.pairwise_map.mpr ((hdj.sublist hsub).imp ?_)
+        intro a b hab v hv hvb
+        exact hab v (by simp [hv]) (by simp [hvb]))
+      (by
+        intro w hw
+        obtain ⟨q, hq, rfl⟩ := List.mem_map.mp hw
+        rw [← hargs]
+        exact hpart.same _ hg p0 (by simp) q (List.mem_cons_of_mem _ hq))
+      (by simp only [List.length_map]; omega)
+    refine ⟨e, hne, ?_, ?_⟩
+    · simpa [witnessOf, hargs] using he
+    · have hlast : ((p0 :: gs).getLast hne).1 = (tuple args :: gs.map (·.1)).getLast (by simp) := by
+        have h1 := List.getLast?_eq_some_getLast (l := p0 :: gs) hne
+        have h2 := List.getLast?_eq_some_getLast (l := tuple args :: gs.map (·.1)) (by simp)
+        have h3 := List.getLast?_map (f := fun p : Term × Term => p.1) (l := p0 :: gs)
+        rw [List.map_cons, hargs, h2, h1] at h3
+        exact (Option.some.inj h3).symm
+      intro p hp
+      rw [hlast]
+      refine ⟨hval _ (by simp [witnessOf]), hval p.1 ?_⟩
+      rw [← hargs, ← List.map_cons (f := fun p : Term × Term => p.1)]
+      exact List.mem_cons_of_mem _ (List.mem_map_of_mem hp)
 
 /-- answers correspond to groups: `collectionOf` delivers, in group order, one answer for each group
     whose aggregated list unifies with `Instances` (the others fail and the next group is tried) -/
@@ -248,6 +369,12 @@ example : checkInstances (Term.list [.var 1] (.var 2)) = none := by decide +kern
 example : (groups [(d11_CC, .int 1), (d11_AB, .int 2), (Term.a2 "," (.var 7) (.var 7), .int 3)]).map (·.map (·.2)) =
     [[.int 1, .int 3], [.int 2]] := by decide +kernel
 example : Collect.set compareStd [.int 3, .int 1, .int 3, .atom "a", .int 2] = [.int 1, .int 2, .int 3, .atom "a"] := by
+  decide +kernel
+
+/-- the hypotheses of C11_witness_unify are met by the group {(C,C), (D,D)} with free variables Y, Z -/
+example : ∃ e, unifyWitnesses (tuple [.var 1, .var 2]) 20 [tuple [.var 10, .var 10], tuple [.var 11, .var 11]] [] = some e ∧
+    applyEnv e 20 [] (tuple [.var 1, .var 2]) = some (tuple [.var 11, .var 11]) := by
+  refine ⟨_, rfl, ?_⟩
   decide +kernel
 
 end PrologVerif.C11
